@@ -53,6 +53,10 @@ SENSITIVITY = {
     "r5b": ("seeded/r5b/patch.diff", "C17", ["result-mismatch"], "A via the numeric-type seam + B"),
     "r5c": ("seeded/r5c/patch.diff", "C18", ["query-element-not-delivered", "error-invented", "error-swallowed", "concurrent-operation-affected"], "B (Miri) pass of C18"),
     "r5d": ("seeded/r5d/patch.diff", "C18", ["build-invariant"], "A: builder inputs with reversed-stride axis views"),
+    "r6a": ("seeded/r6a/patch.diff", "C17", ["process-history-dependence", "result-mismatch"], "A: fresh-process reference + relative slots"),
+    "r6b": ("seeded/r6b/patch.diff", "C17", ["result-mismatch", "process-history-dependence"], "A: long axes, interpolators alive together after a drop"),
+    "r6c": ("seeded/r6c/patch.diff", "C18", ["callback-invariant"], "A: signed zero among the query values"),
+    "r6d": ("seeded/r6d/patch.diff", "C18", ["wrong-target"], "A: query/buffer layouts"),
 }
 
 BENIGN = {
@@ -84,6 +88,8 @@ def with_patch(patch, fn):
         return fn()
     finally:
         sh(["git", "-C", "/repo", "checkout", "--", "."])
+        # a patch may add source files: remove untracked files under the source directories
+        sh(["git", "-C", "/repo", "clean", "-fdq", "--", "src", "tests", "examples", "benches"])
 
 
 def run_check(prop):
